@@ -51,5 +51,11 @@ let handle (toks : Stdlib.String.t list) : Stdlib.String.t =
   | ["changes_script"; c] -> Conv.bool_str (changes_script (name c))
   | ["reads_objects_script"; c] -> Conv.bool_str (reads_objects_script (name c))
   | ["all_commands"] -> Stdlib.String.concat "," (Stdlib.List.map ocaml_string_of all_command_names)
+  | ["lua_names"] -> Stdlib.String.concat "," (Stdlib.List.map ocaml_string_of lua_names)
+  | ["lua_globals"] -> Stdlib.String.concat "," (Stdlib.List.map ocaml_string_of (Stdlib.List.append lua_set_globals lua_base_fns))
+  | ["lua_os"] -> Stdlib.String.concat "," (Stdlib.List.map ocaml_string_of lua_os_fns)
+  | ["lua_tile38"] -> Stdlib.String.concat "," (Stdlib.List.map ocaml_string_of lua_tile38_exports)
+  | ["lua_documented"] -> Stdlib.String.concat "," (Stdlib.List.map ocaml_string_of documented_allow)
+  | ["lua_dangerous"] -> Stdlib.String.concat "," (Stdlib.List.map ocaml_string_of dangerous_names)
   | ["dev_only"] -> Stdlib.String.concat "," (Stdlib.List.map ocaml_string_of dev_only)
   | _ -> "?unknown"
